@@ -406,11 +406,13 @@ pub fn check_state<KK: KeyKind>(
     site: &str,
     opts: &RunOpts,
     replay: &dyn Fn() -> serde_json::Value,
-) {
+) -> bool {
     let ktn = KK::name();
     ctx.count("states-checked");
+    let mut healthy = true;
     // ---- C05 always-signed invariant
     if let Err(why) = authentic(o) {
+        healthy = false;
         ctx.violate("C05", "record-does-not-verify", &format!("{site}/{why}"), || format!("{ktn}: record handed out with Ok fails {why}"), replay);
     }
     if o.typed.id.as_deref() != Some("v4") {
@@ -447,8 +449,9 @@ pub fn check_state<KK: KeyKind>(
             ctx.violate("C05", "not-accepted-again-by-decoder", &format!("{site}/{}", short_err(&d.res)), || {
                 format!("{ktn}: decode(encode(r)) = {:?}", d.res.as_ref().err())
             }, replay);
+            healthy = false;
         }
-        return;
+        return healthy;
     }
     check_get_decodable(ctx, e, o, site, replay);
     // ---- C03 accessor sweep
@@ -488,6 +491,10 @@ pub fn check_state<KK: KeyKind>(
         }
     };
     cmp(ctx, "bytes", &d);
+    if d.res.is_err() || d.panic.is_some() {
+        // a record its own decoder refuses: later steps of this history would only cascade
+        return false;
+    }
     cmp(ctx, "text", &parse_as::<KK::K>(&o.text));
     cmp(ctx, "text-noprefix", &parse_as::<KK::K>(o.text.trim_start_matches("enr:")));
     let disp = guard(|| format!("{e}")).unwrap_or_default();
@@ -527,6 +534,22 @@ pub fn check_state<KK: KeyKind>(
             ctx.violate("C15", "record-differs-from-its-clone", site, || "".into(), replay);
         }
     }
+    healthy
+}
+
+/// States in which a genuine, recorded defect of the library is known to show; the site label of
+/// every monitor evaluated there carries the tag, so that the known-finding signature is specific.
+pub fn corner_of(kt: crate::refimpl::decode::KT, scheme: Scheme, pairs: &Pairs) -> Option<&'static str> {
+    if kt == crate::refimpl::decode::KT::Comb && scheme == Scheme::Ed {
+        if let Some(raw) = pairs.get(&b"secp256k1"[..]) {
+            if let Some(s) = rlp::as_str(raw) {
+                if matches!(sig::secp_pub_validity(s), sig::PubValidity::Valid(_)) {
+                    return Some("combined-ed25519-signer+valid-secp256k1-entry");
+                }
+            }
+        }
+    }
+    None
 }
 
 pub fn short_err(r: &Result<Obs, String>) -> String {
@@ -640,7 +663,14 @@ pub fn run_history<KK: KeyKind>(ctx: &mut Ctx, h: &History, opts: &RunOpts) -> H
             return finish::<KK>(stats, &own_k, &other_k);
         }
     };
-    check_state::<KK>(ctx, &enr, &cur, "init", opts, &replay);
+    let init_site = match corner_of(KK::KT, h.scheme, &cur.pairs.iter().cloned().collect()) {
+        Some(c) => format!("init[{c}]"),
+        None => "init".to_string(),
+    };
+    if !check_state::<KK>(ctx, &enr, &cur, &init_site, opts, &replay) {
+        ctx.count("histories-abandoned-on-broken-state");
+        return finish::<KK>(stats, &own_k, &other_k);
+    }
     if cur.pubkey != ms_own.pubkey {
         ctx.violate("C05", "initial-record-carries-another-key", "init", || "".into(), &replay);
     }
@@ -666,7 +696,10 @@ pub fn run_history<KK: KeyKind>(ctx: &mut Ctx, h: &History, opts: &RunOpts) -> H
         stats.steps_run += 1;
         ctx.count("evaluations");
         ctx.count("steps");
-        let site = format!("{opn}");
+        let site = match corner_of(KK::KT, h.scheme, &pred.pairs) {
+            Some(c) => format!("{opn}[{c}]"),
+            None => opn.to_string(),
+        };
         let res = match res {
             Err(p) => {
                 ctx.count("panics");
@@ -750,7 +783,7 @@ pub fn run_history<KK: KeyKind>(ctx: &mut Ctx, h: &History, opts: &RunOpts) -> H
                 // ---- C09 refused for size exactly when exceeded (built-in key types)
                 if kind == "ExceedsMaxSize" && h.scheme != Scheme::Toy {
                     ctx.count(&format!("gate.c09.refused.{}", step.op.family()));
-                    if !pred.must.contains(&Cause::Size) {
+                    if !pred.must.contains(&Cause::Size) && !pred.may.contains(&Cause::Size) {
                         ctx.violate("C09", "refused-for-size-although-result-fits", &site, || {
                             format!("{ktn}: {opn} refused with ExceedsMaxSize; model size {}", record_size(ms_s, pred.seq, &pred.pairs))
                         }, &replay);
@@ -819,9 +852,13 @@ pub fn run_history<KK: KeyKind>(ctx: &mut Ctx, h: &History, opts: &RunOpts) -> H
                     "C03" => ctx.distinct(h64(&[format!("{:?}", step.op).as_bytes(), &(pre.pairs.len() as u64).to_le_bytes(), seq_class(pre.seq).as_bytes()])),
                     _ => {}
                 }
-                check_state::<KK>(ctx, &enr, &post, &site, opts, &replay);
-                if opts.keep_states {
+                let healthy = check_state::<KK>(ctx, &enr, &post, &site, opts, &replay);
+                if opts.keep_states && healthy {
                     stats.states.push(post.clone());
+                }
+                if !healthy {
+                    ctx.count("histories-abandoned-on-broken-state");
+                    break;
                 }
             }
         }
